@@ -1542,3 +1542,203 @@ func TestD44_RedefineWithVeryManyResults(t *testing.T) {
 		}()
 	}
 }
+
+// D45 (C07): the value resolved for a converter's (or the target's own)
+// type-only argument stayed on the shared argument vertex and was taken, as
+// "already there", by the next function that needed an argument of that type:
+// several named parameters produced by ONE converter with a second input were
+// all converted from the same supplied value, whatever their names.
+type d45Src int
+type d45Mid int
+type d45Dst int
+type d45Ctx int
+type d45Flag bool
+
+func TestD45_TypedArgumentIsResolvedPerFunctionExecution(t *testing.T) {
+	conv := func(in struct {
+		argmapper.Struct
+		Flag d45Flag
+		V    d45Src `argmapper:",typeOnly"`
+	}) d45Dst {
+		return d45Dst(in.V)
+	}
+	for i := 0; i < 200; i++ {
+		// (a) two named parameters, one two-input converter
+		target := argmapper.MustFunc(argmapper.NewFunc(func(in struct {
+			argmapper.Struct
+			M d45Dst
+			N d45Dst
+		}) string {
+			return fmt.Sprintf("m=%d n=%d", in.M, in.N)
+		}))
+		res, p := call(target, argmapper.Named("n", d45Src(1)), argmapper.Named("m", d45Src(2)), argmapper.Named("flag", d45Flag(true)), argmapper.Converter(conv))
+		if p != nil || res.Err() != nil {
+			t.Fatalf("%v %v", p, res.Err())
+		}
+		if got := res.Out(0).(string); got != "m=2 n=1" {
+			t.Fatalf("iteration %d (a): got %q, want m=2 n=1: each parameter is converted from the supplied value of its own name", i, got)
+		}
+		// (b) two hops, the second converter takes a type-only context value
+		conv1 := func(v d45Src) d45Mid { return d45Mid(v) }
+		conv2 := func(v d45Mid, _ d45Ctx) d45Dst { return d45Dst(v) }
+		res, p = call(target, argmapper.Named("n", d45Src(1)), argmapper.Named("m", d45Src(2)), argmapper.Typed(d45Ctx(0)), argmapper.Converter(conv1, conv2))
+		if p != nil || res.Err() != nil {
+			t.Fatalf("%v %v", p, res.Err())
+		}
+		if got := res.Out(0).(string); got != "m=2 n=1" {
+			t.Fatalf("iteration %d (b): got %q, want m=2 n=1", i, got)
+		}
+		// (c) the stale value comes from a type-only parameter of the target
+		target2 := argmapper.MustFunc(argmapper.NewFunc(func(in struct {
+			argmapper.Struct
+			N d45Dst
+			X d45Src `argmapper:",typeOnly"`
+		}) d45Dst {
+			return in.N
+		}))
+		res, p = call(target2, argmapper.Named("n", d45Src(1)), argmapper.Named("m", d45Src(2)), argmapper.Named("flag", d45Flag(true)), argmapper.Converter(conv))
+		if p != nil || res.Err() != nil {
+			t.Fatalf("%v %v", p, res.Err())
+		}
+		if got := res.Out(0).(d45Dst); got != 1 {
+			t.Fatalf("iteration %d (c): parameter n was converted from the value %d (supplied as m), want the value named n", i, got)
+		}
+	}
+}
+
+// D46 (C07): when a converter on the way to a named parameter takes one of its
+// inputs BY NAME, the search for that input replaced the inherited name
+// preference by the input's own name: the type-only input of the converter
+// before it was fed by any supplied value of the source type.
+func TestD46_NestedNamedInputKeepsTheInheritedNamePreference(t *testing.T) {
+	conv1 := func(v d45Src) d45Mid { return d45Mid(v) }
+	conv2 := func(in struct {
+		argmapper.Struct
+		Flag bool
+		X    d45Mid
+	}) d45Dst {
+		return d45Dst(in.X)
+	}
+	// one level more: conv2b's result is taken by name by conv3
+	conv2b := func(in struct {
+		argmapper.Struct
+		Flag bool
+		X    d45Mid
+	}) d45Ctx {
+		return d45Ctx(in.X)
+	}
+	conv3 := func(in struct {
+		argmapper.Struct
+		Flag2 int8
+		Y     d45Ctx
+	}) d45Dst {
+		return d45Dst(in.Y)
+	}
+	for i := 0; i < 300; i++ {
+		target := argmapper.MustFunc(argmapper.NewFunc(func(in struct {
+			argmapper.Struct
+			A d45Dst
+		}) d45Dst {
+			return in.A
+		}))
+		inputs := []argmapper.Arg{argmapper.Named("a", d45Src(1)), argmapper.Named("b", d45Src(2)), argmapper.Named("c", d45Src(3)), argmapper.Named("flag", true), argmapper.Named("flag2", int8(1))}
+		res, p := call(target, append(inputs, argmapper.Converter(conv1, conv2))...)
+		if p != nil || res.Err() != nil {
+			t.Fatalf("%v %v", p, res.Err())
+		}
+		if got := res.Out(0).(d45Dst); got != 1 {
+			t.Fatalf("iteration %d: parameter a was converted from the supplied value %d, want the value named a (1)", i, got)
+		}
+		res, p = call(target, append(inputs, argmapper.Converter(conv1, conv2b, conv3))...)
+		if p != nil || res.Err() != nil {
+			t.Fatalf("%v %v", p, res.Err())
+		}
+		if got := res.Out(0).(d45Dst); got != 1 {
+			t.Fatalf("iteration %d (three levels): parameter a was converted from the supplied value %d, want the value named a (1)", i, got)
+		}
+	}
+}
+
+// D47 (C15): sibling of D41. A value DECLARED with an interface type that holds
+// a reflect.Value of ANOTHER interface type assignable to it (the shape of a
+// value copied over from the result set of another function, e.g. a
+// ReadCloser into a Reader entry) was sent under that other type by
+// Arg()/Args(): a fully filled input set did not satisfy its own function.
+type d47ReadCloser interface {
+	Read() string
+	Close() error
+}
+type d47RC struct{ d30Buf }
+
+func (*d47RC) Close() error { return nil }
+
+func TestD47_ArgsHonourDeclaredInterfaceTypeForValuesOfAnotherInterfaceType(t *testing.T) {
+	producer := argmapper.MustFunc(argmapper.NewFunc(func() struct {
+		argmapper.Struct
+		RC d47ReadCloser
+	} {
+		return struct {
+			argmapper.Struct
+			RC d47ReadCloser
+		}{RC: &d47RC{d30Buf{"x"}}}
+	}))
+	consumer := argmapper.MustFunc(argmapper.NewFunc(func(in d30In) string { return in.R.Read() }))
+	out := producer.Output()
+	pres, p := call(producer)
+	if p != nil || pres.Err() != nil {
+		t.Fatalf("%v %v", p, pres.Err())
+	}
+	if err := out.FromResult(pres); err != nil {
+		t.Fatal(err)
+	}
+	in := consumer.Input()
+	in.Named("r").Value = out.Named("rc").Value // interface-kind value of type d47ReadCloser
+	res, p := call(consumer, in.Args()...)
+	if p != nil {
+		t.Fatalf("panic: %v", p)
+	}
+	if res.Err() != nil {
+		t.Fatalf("the function called with its own, fully filled input set: %v", res.Err())
+	}
+	if got := res.Out(0).(string); got != "x" {
+		t.Fatalf("got %q", got)
+	}
+}
+
+// D48 (C16): sibling of D32. A converter generator given to Call did not
+// override a default generator of the Func that emits a converter of the same
+// function type: generators ran first to last and the first converter of a
+// type to enter the graph is the one that stays.
+func TestD48_CallTimeGeneratorOverridesDefaultGenerator(t *testing.T) {
+	gen := func(label string) argmapper.ConverterGenFunc {
+		return func(v argmapper.Value) (*argmapper.Func, error) {
+			if v.Type != reflect.TypeOf(0) {
+				return nil, nil
+			}
+			return argmapper.NewFunc(func(int) string { return label })
+		}
+	}
+	for i := 0; i < 50; i++ {
+		target := argmapper.MustFunc(argmapper.NewFunc(func(s string) string { return s }, argmapper.ConverterGen(gen("default"))))
+		res, p := call(target, argmapper.Typed(1), argmapper.ConverterGen(gen("call")))
+		if p != nil || res.Err() != nil {
+			t.Fatalf("%v %v", p, res.Err())
+		}
+		if got := res.Out(0).(string); got != "call" {
+			t.Fatalf("iteration %d: the converter of the %s generator ran; options given at Call override defaults", i, got)
+		}
+		// the default applies when Call gives none
+		res, p = call(target, argmapper.Typed(1))
+		if p != nil || res.Err() != nil || res.Out(0).(string) != "default" {
+			t.Fatalf("defaults only: %v %v", p, res.Err())
+		}
+		// among the generators of one option list the last one wins, as for values
+		res, p = call(target, argmapper.Typed(1), argmapper.ConverterGen(gen("first"), gen("last")))
+		if p != nil || res.Err() != nil {
+			t.Fatalf("%v %v", p, res.Err())
+		}
+		if got := res.Out(0).(string); got != "last" {
+			t.Fatalf("iteration %d: the converter of the %s generator ran, want the last one given", i, got)
+		}
+	}
+}
